@@ -304,7 +304,9 @@ func (p *textProgressBar) showProgress() {
 
 	percentage := "100%"
 	if p.fileSize != 0 {
-		percentage = fmt.Sprintf("%.0f%%", math.Round(float64(p.fileStep)*100.0/float64(p.fileSize)))
+		// the step comes from the peer: never show less than 0% or more than 100%
+		percent := math.Round(float64(p.fileStep) * 100.0 / float64(p.fileSize))
+		percentage = fmt.Sprintf("%.0f%%", math.Max(0, math.Min(100, percent)))
 	}
 	total := convertSizeToString(float64(p.fileStep))
 	speed := p.recentSpeed.getSpeed(p.fileStep, &now)
@@ -312,7 +314,7 @@ func (p *textProgressBar) showProgress() {
 	etaStr := "--- ETA"
 	if speed > 0 {
 		speedStr = fmt.Sprintf("%s/s", convertSizeToString(speed))
-		etaStr = fmt.Sprintf("%s ETA", convertTimeToString(math.Round(float64(p.fileSize-p.fileStep)/speed)))
+		etaStr = fmt.Sprintf("%s ETA", convertTimeToString(math.Max(0, math.Round(float64(p.fileSize-p.fileStep)/speed))))
 	}
 	progressText := p.getProgressText(percentage, total, speedStr, etaStr)
 
@@ -408,6 +410,11 @@ func (p *textProgressBar) getProgressBar(length int) string {
 	fullSize := totalSize
 	if p.fileSize != 0 {
 		fullSize = int(math.Round((float64(totalSize) * float64(p.fileStep)) / float64(p.fileSize)))
+		if fullSize < 0 {
+			fullSize = 0
+		} else if fullSize > totalSize {
+			fullSize = totalSize
+		}
 	}
 	emptySize := totalSize - fullSize
 	if p.colorA == nil || p.colorB == nil {
